@@ -173,7 +173,7 @@ CLAIMS["C11"] = (
 
 CLAIMS["C02"] = (
     "R-SYMBOLIC by partial evaluation of the loop-free exactness tables for every global rule and level 0..12, compared with degree-of-exactness theorems that depend only on the number "
-    "of nodes; R-COVER of the rule enumerators; routing of integrate()",
+    "of nodes; R-COVER of the rule enumerators; routing of integrate(); R-SYMBOLIC quadrature scale of the domain transform (shared with C10) and basis integrals of the local rules (shared with C04)",
     "Static rule discharge: for 35 global rules the declared quadrature exactness never exceeds what any rule of that class with the declared number of nodes can integrate "
     "(Gauss 2n-1, Gauss-Patterson (3n+1)/2, interpolatory n-1 plus one degree by symmetry only for odd n), tables are monotone, every global rule has an explicit case, and integrate() "
     "is routed through the same weights/basis integrals as getQuadratureWeights. An over-claim in the table lists a monomial in getGlobalPolynomialSpace(false) that cannot be integrated, "
@@ -182,7 +182,8 @@ CLAIMS["C02"] = (
     "recurrence for alpha+beta=-1, is out of reach and documented as missed). The laws are upper bounds; under-claims are reported as notes.",
     "DESIGN.md 4/C02")
 CLAIMS["C03"] = (
-    "partial evaluation of the interpolation-exactness table for every global rule and level 0..12 against the bound n-1 (frozen exceptions clenshaw-curtis-zero and fourier), R-COVER, routing",
+    "partial evaluation of the interpolation-exactness table for every global rule and level 0..12 against the bound n-1 (frozen exceptions clenshaw-curtis-zero and fourier), R-COVER, routing; R-SIBLING pairing of the Kronecker Vandermonde pattern (shared with C01); "
+    "R-SIBLING evaluation of every loaded/needed work-set selection over the four emptiness assignments",
     "Static rule discharge (thin claim): the declared interpolation space never lists a monomial that n nodes cannot reproduce, the tables are monotone and total over the global rules, and "
     "the value and weight routes of Global and Sequence grids share their basis routines.",
     "Exact reproduction at arbitrary x (Lagrange caches, Newton transform, DFT weights, DAG transform, wavelet solve) and 'weights sum to one' are numerical and not decided. This is a "
@@ -191,10 +192,12 @@ CLAIMS["C03"] = (
 
 CLAIMS["C01"] = (
     "R-MUST-PASS (CFG must-pass-after with per-method summaries computed as a fixpoint over calls on the same object) from every change of the stored values / loaded point set to a decision "
-    "about the hierarchical coefficients, in every entry point of the five grid classes; R-PAIR-ORDER of value merges (shared with C07); R-GUARD of the Kronecker algorithm; tree rebuild (shared with C04)",
+    "about the hierarchical coefficients, in every entry point of the five grid classes; R-PAIR-ORDER of value merges (shared with C07); R-GUARD of the Kronecker algorithm; R-SIBLING pairing of columns and basis values in its sparse Vandermonde pattern (partial evaluation of the ancestor walk against getParent); "
+    "symbolic offset of the single-point insertion kernel; tree rebuild (shared with C04)",
     "Static rule discharge of the structural half of interpolation: on no path does an entry point of GridLocalPolynomial/Sequence/Wavelet/Fourier/Global leave with new values or a new point set "
     "and the old surpluses / coefficients / tensor bookkeeping (which is how evaluate() at a node stops returning the loaded value without any arithmetic being wrong); values are merged before the "
-    "index set they are ordered by; the complete-hierarchy algorithm runs only when computeDAGup reported completeness; the evaluation tree follows the point set.",
+    "index set they are ordered by; the complete-hierarchy algorithm runs only when computeDAGup reported completeness, and its 1-D matrix pattern puts basis J evaluated at the node of row r into column J "
+    "of row r for exactly the ancestors of r; a single inserted point lands at offset slot*stride; the evaluation tree follows the point set.",
     "That the computed surpluses / coefficients are the right numbers (van_matrix arithmetic, wavelet solves, FFT-like transforms, Lagrange caches) is numerical and NOT decided: seeds that "
     "perturb the arithmetic of a solver are out of reach and documented as missed. Found and repaired through this rule: GridFourier::mergeRefinement (9f0a30f), GridWavelet stale matrix (dfb952e).",
     "DESIGN.md 4/C01")
@@ -209,12 +212,12 @@ CLAIMS["C04"] = (
     "DESIGN.md 4/C04")
 CLAIMS["C09"] = (
     "R-MUST-PASS of an insert-or-park sink in every loadConstructedPoint overload, R-WHO-MAY-CALL for removal of parked samples, R-GUARD of candidate appends, R-PAIR-ORDER of the single-point "
-    "expansion, R-SIBLING of the two GridGlobal overloads (eject after register), R-SYMBOLIC inverse relation between the upward (getParent/getStepParent) and downward (getKid) hierarchy maps",
+    "expansion, R-SIBLING of the two GridGlobal overloads (eject after register) and of the root predicate of the single-sample and batch routes (partial evaluation), R-TYPESTATE of the per-tensor sample flags, R-SYMBOLIC inverse relation between the upward (getParent/getStepParent) and downward (getKid) hierarchy maps",
     "Static rule discharge of the order-insensitive skeleton of dynamic construction: no delivered sample is dropped on any path; parked samples leave the store only through the extraction "
     "routines; candidates exclude loaded and already-proposed tensors; the single-point expansion takes the sub-graph before and shifts indices after the insertion; a tensor that becomes "
     "complete is loaded whichever overload delivered the sample; and every point whose surplus depends on a new point is reachable from it in the sub-graph walk.",
     "Equality of the final grid over all permutations / batchings of a sample stream is a property of histories and is NOT decided; the rules are necessary conditions found by reading how "
-    "order can matter. One known finding (F24, semi-local step-parents) and one repaired defect (57b61bc).",
+    "order can matter. One known finding (F24, semi-local step-parents) and two repaired defects (57b61bc, 1b7a1c8).",
     "DESIGN.md 4/C09")
 
 PENDING = {}
